@@ -2,7 +2,7 @@
 #include "streams.h"
 using namespace pbt;
 
-static const uint32_t CH[] = {0, 1, 2, 7, 8, 9, 15, 16, 17, 31, 32, 33, 255, 256, 257, 328, 329, 1u << 20};
+static const uint32_t CH[] = {0, 1, 2, 7, 8, 9, 15, 16, 17, 31, 32, 33, 255, 256, 257, 328, 329, 1u << 20, 20000, 65536, 1u << 20};
 static const int NCH = sizeof(CH) / sizeof(CH[0]);
 
 // ------------------------------------------------------------------------------------------------ compression
@@ -133,7 +133,7 @@ static void body_def_pairs(Tape &t, Ctx &c) {
 // generated call histories: refill before drain, zero-length buffers, flush changes, late end_of_stream
 static void body_def_history(Tape &t, Ctx &c) {
 	std::vector<dg::Seg> segs;
-	dg::gen(t, segs, 60000);
+	dg::gen(t, segs, 150000);
 	std::vector<uint8_t> data;
 	dg::expand(segs, data);
 	igz::DefOpts o;
@@ -141,14 +141,16 @@ static void body_def_history(Tape &t, Ctx &c) {
 	decode_def(t, o, lv);
 	kern::use_level(lv);
 	int nsteps = (int) t.range(1, 24);
+	uint32_t reoffer = (uint32_t) t.pick<uint32_t>({0, 0, 1, 2, 8, 64}); // the caller re-cuts input the library left unconsumed
 	uint64_t hs = t.bits64();
 	bool late_eos = t.coin();
-	c.fpmix(dg::fingerprint(segs)); c.fpmix(o.level * 100 + o.gzip_flag * 10); c.fpmix(o.hist_bits); c.fpmix(mix64((uint64_t) (uintptr_t) lv)); c.fpmix(nsteps); c.fpmix(hs); c.fpmix(late_eos);
+	c.fpmix(dg::fingerprint(segs)); c.fpmix(o.level * 100 + o.gzip_flag * 10); c.fpmix(o.hist_bits); c.fpmix(mix64((uint64_t) (uintptr_t) lv)); c.fpmix(nsteps); c.fpmix(hs); c.fpmix(late_eos); c.fpmix(reoffer);
 	igz::Deflater d(o);
 	size_t pos = 0, len = data.size(), big = len + len / 8 + 2048;
 	std::string where = fmt("level %d gzip_flag %d hist_bits %d cpu %s, %zu bytes", o.level, o.gzip_flag, o.hist_bits, lv, len);
 	std::string hist;
 	int boundaries = 0;
+	bool prev_full = false;
 	for (int i = 0; i < nsteps && !d.finished(); i++) {
 		uint64_t h = mix64(hs + i);
 		size_t add = CH[h % NCH];
@@ -157,9 +159,12 @@ static void body_def_history(Tape &t, Ctx &c) {
 		if (cap > big) cap = big;
 		int flush = (int) ((h >> 32) % 3);
 		bool eos = pos + add >= len && !late_eos;
+		bool cut = reoffer && d.pending.size() + add > reoffer && (prev_full || ((h >> 40) & 3) == 0) && !d.eos_announced; // only a prefix of (unconsumed remainder + new bytes) is offered; the rest stays with the caller
+		if (cut) d.offer_limit = reoffer;
 		igz::CallInfo ci = d.call(data.data() + pos, add, cap, flush, eos);
 		pos += add;
-		if (hist.size() < 300) hist += fmt("(+%zu,%zu,f%d%s)", add, cap, flush, eos ? ",eos" : "");
+		prev_full = cap > 0 && ci.produced == cap;
+		if (hist.size() < 300) hist += fmt("(+%zu%s,%zu,f%d%s)", add, cut ? fmt("[only %u of the rest offered]", reoffer).c_str() : "", cap, flush, eos ? ",eos" : "");
 		if (add && pos < len) boundaries++;
 		PBT_CHECK(!ci.faulted, "stream-independence:deflate:fault", "%s, history %s: %s", where.c_str(), hist.c_str(), ci.problem.c_str());
 		PBT_CHECK(ci.problem.empty() && ci.rc == COMP_OK, "stream-independence:deflate:call", "%s, history %s: rc %d %s", where.c_str(), hist.c_str(), ci.rc, ci.problem.c_str());
@@ -180,6 +185,47 @@ static void body_def_history(Tape &t, Ctx &c) {
 	c.nontrivial = d.calls >= 3 && boundaries >= 1;
 	c.label(fmt("level=%d", o.level));
 	if (c.want_sample) c.sample = fmt("{\"data\":%s,\"level\":%d,\"gzip_flag\":%d,\"cpu\":\"%s\",\"history\":%s,\"calls\":%llu}", dg::describe(segs).c_str(), o.level, o.gzip_flag, lv, jstr(hist).c_str(), (unsigned long long) d.calls);
+}
+
+// whole-stream schedules (constant / random / boundary-set / small-medium-rest chunkings on both sides, refill before drain, late end_of_stream,
+// flush mode per call, and the caller that re-cuts its remaining input after every call that filled the output chunk)
+static void body_def_plans(Tape &t, Ctx &c) {
+	std::vector<dg::Seg> segs;
+	// one case in three is aimed at the deepest resume state of levels 1-3: a block that ends because the token buffer of a *small* level buffer is
+	// full (match table partly replayed), flushed through small output chunks while the caller re-cuts its remaining input into 1..8-byte pieces
+	bool deep = t.range(0, 2) == 0;
+	if (deep) dg::gen(t, segs, 150000, nullptr, (int) t.pick<uint32_t>({3, 3, 6, 4})); else dg::gen(t, segs, 150000);
+	std::vector<uint8_t> data;
+	dg::expand(segs, data);
+	igz::DefOpts o;
+	const char *lv;
+	decode_def(t, o, lv);
+	igzc::StreamPlan p = igzc::decode_plan(t, data.size());
+	if (deep) {
+		o.level = (int) t.pick<uint32_t>({3, 3, 1, 2});
+		o.lbuf_size = igz::lvl_buf_size(o.level, (int) t.range(0, 1)) + (uint32_t) t.range(0, 63);
+		p.out.mode = 1; p.out.param = (uint32_t) t.pick<uint32_t>({15, 16, 31, 64, 257, 15});
+		if (data.size() / p.out.param > 3000) p.out.param = (uint32_t) (data.size() / 3000 + 1);
+		p.reoffer_limit = (uint32_t) t.pick<uint32_t>({1, 1, 2, 8});
+	}
+	kern::use_level(lv);
+	c.fpmix(dg::fingerprint(segs)); c.fpmix(o.level * 100 + o.gzip_flag * 10); c.fpmix(o.hist_bits); c.fpmix(o.lbuf_size); c.fpmix(mix64((uint64_t) (uintptr_t) lv));
+	c.fpmix(p.in.mode * 7 + p.in.param); c.fpmix(p.out.mode * 7 + p.out.param); c.fpmix(p.flush_mode * 8 + p.late_eos * 4 + p.refill_before_drain * 2); c.fpmix(p.reoffer_limit);
+	igz::Deflater d(o);
+	d.in_place = t.coin() ? guard::START : guard::END;
+	std::string ks, where = fmt("level %d gzip_flag %d hist_bits %d level_buf %u cpu %s, %zu bytes, in %s out %s flush-mode %d%s%s%s", o.level, o.gzip_flag, o.hist_bits, o.lbuf_size, lv, data.size(), p.in.text().c_str(), p.out.text().c_str(), p.flush_mode,
+	                              p.late_eos ? ", late end_of_stream" : "", p.refill_before_drain ? ", refill before drain" : "", p.reoffer_limit ? fmt(", only %u bytes of the rest offered after a full output chunk", p.reoffer_limit).c_str() : "");
+	uint64_t ncalls = 0;
+	std::string err = igzc::run_stream(d, data, p, ks, &ncalls);
+	if (ks == "inconclusive") throw Skip("inconclusive (call bound)");
+	PBT_CHECK(err.empty(), "stream-independence:deflate:" + ks, "%s: %s", where.c_str(), err.c_str());
+	std::string v = igzc::verify_stream(d.out, data, o.gzip_flag, o.hist_bits);
+	PBT_CHECK(v.empty(), "stream-independence:deflate:decode", "%s: %s", where.c_str(), v.c_str());
+	c.nontrivial = ncalls >= 3;
+	c.label(fmt("level=%d", o.level));
+	if (p.reoffer_limit) c.label("re-cut-after-full-output");
+	if (deep) c.label("deep:small-level-buffer+small-output+tiny-reoffer");
+	if (c.want_sample) c.sample = fmt("{\"data\":%s,\"level\":%d,\"gzip_flag\":%d,\"cpu\":\"%s\",\"in\":\"%s\",\"out\":\"%s\",\"flush_mode\":%d,\"reoffer\":%u,\"calls\":%llu}", dg::describe(segs).c_str(), o.level, o.gzip_flag, lv, p.in.text().c_str(), p.out.text().c_str(), p.flush_mode, p.reoffer_limit, (unsigned long long) ncalls);
 }
 
 // ------------------------------------------------------------------------------------------------ decompression
@@ -359,10 +405,11 @@ int main(int argc, char **argv) {
 	std::vector<Sub> subs = {
 		{"deflate_all_splits", body_def_splits, 24, 2, nullptr, "one small input (<= 600 bytes): every single split point of the input and, separately, of the output; result decodes (zlib + reference) to the input; non-trivial: >= 3 bytes"},
 		{"deflate_chunk_pairs", body_def_pairs, 24, 1, nullptr, "all pairs (input chunk, output chunk) from {0,1,2,7,8,9,15,16,17,31,32,33,255,256,257,328,329,big} incl. zero-length calls"},
-		{"deflate_history", body_def_history, 48, 6, nullptr, "generated histories: refill before drain, zero-length and 1-byte buffers, flush mode changed every call, late end_of_stream, fresh memory for every chunk; then finish; every call satisfies the counter invariants, finishing calls must make progress, output decodes to the concatenated input; non-trivial: >= 3 calls with a chunk boundary inside the data"},
+		{"deflate_history", body_def_history, 48, 12, nullptr, "generated histories: refill before drain, zero-length and 1-byte buffers, flush mode changed every call, late end_of_stream, fresh memory for every chunk; then finish; every call satisfies the counter invariants, finishing calls must make progress, output decodes to the concatenated input; non-trivial: >= 3 calls with a chunk boundary inside the data"},
+		{"deflate_plans", body_def_plans, 64, 44, nullptr, "inputs up to 150 KB x whole-stream call plans: chunkings of both sides (all, constant, random, boundary set, small/medium/rest), refill before drain, late end_of_stream, flush mode per call, chunk placed end- or start-flush at a guard page, and a caller that after every call that filled its output chunk offers only 1..64 bytes of the remaining input; counters, progress, decode; non-trivial: >= 3 calls"},
 		{"inflate_all_splits", body_inf_splits, 64, 3, nullptr, "one small valid stream (grammar/zlib/ISA-L made, raw/gzip with optional fields/zlib): every single split point of input and of output: same bytes, final state, status and crc as isal_inflate_stateless; non-trivial: header with optional fields or a match"},
 		{"inflate_chunk_pairs", body_inf_pairs, 64, 1, nullptr, "all (input chunk, output chunk) pairs from the boundary set incl. zero-length calls, compared with one-shot"},
-		{"inflate_history", body_inf_history, 96, 8, nullptr, "generated schedules (constant, random, boundary-set with empty calls) on valid and corrupted streams: valid -> identical to one-shot; invalid -> never reports completion; non-trivial: >= 3 calls"},
+		{"inflate_history", body_inf_history, 96, 16, nullptr, "generated schedules (constant, random, boundary-set with empty calls) on valid and corrupted streams: valid -> identical to one-shot; invalid -> never reports completion; non-trivial: >= 3 calls"},
 	};
 	return pbt_main(argc, argv, "C07", subs);
 }
